@@ -185,6 +185,7 @@ class Item:
     tags: List[str] = dfield(default_factory=list)
     serde: bool = True
     concrete: Dict[str, str] = dfield(default_factory=dict)
+    param_default_tys: Dict[str, "Ty"] = dfield(default_factory=dict)
 
     def shape_tag(self):
         if self.kind != "enum":
@@ -210,10 +211,21 @@ class Item:
         else:
             yield from self.fields
 
+    def all_fields_live(self):
+        """fields that reach the binding (fields of skipped variants do not)"""
+        if self.kind == "enum":
+            for v in self.variants:
+                if not v.skip:
+                    yield from v.fields
+        else:
+            yield from self.fields
+
     def deps(self):
         out = []
         for f in self.all_fields():
             out.extend(f.ty.users())
+        for t in self.param_default_tys.values():
+            out.extend(t.users())
         return out
 
     def feature_tags(self):
@@ -263,6 +275,10 @@ class Item:
                 if rep == "internal" and v.untagged and v.kind == "struct":
                     t.append("k:untagged-struct-variant-in-internal-enum")
         for f in self.all_fields():
+            if f.flatten or f.inline:
+                for u in f.ty.walk():
+                    if u.kind == "user" and any(t.users() for t in u.item.param_default_tys.values()):
+                        t.append("k:splice-generic-with-default")
             if f.flatten and f.ty.kind == "user":
                 tgt = f.ty.item
                 if tgt.kind == "named" and not tgt.fields and tgt.tag is None:
@@ -465,6 +481,8 @@ class Profile:
     string_keys_only: bool = False   # C02: serde's buffered deserializers cannot parse non-string map keys
     weird_idents: bool = False       # C09: identifiers that do not follow Rust naming conventions
     p_rename_all: float = None
+    placements: bool = False         # C03/C04/C11/C13: #[ts(export_to = ..)] placements, cycles, parameter defaults
+    ts_only: bool = False            # derive only TS (+ the inert SerdeAttrs helper)
 
 
 class Gen:
@@ -649,13 +667,28 @@ class Gen:
     # -- items ------------------------------------------------------------------------------
     def new_item(self, kind):
         n = self.n()
-        return Item(id=f"{self.prefix}{n}", name=f"{self.prefix}{n}", kind=kind,
-                    derives=["Clone", "Debug", "Serialize", "Deserialize", "TS", "Samples"])
+        it = Item(id=f"{self.prefix}{n}", name=f"{self.prefix}{n}", kind=kind,
+                  derives=["TS", "SerdeAttrs"] if self.p.ts_only else ["Clone", "Debug", "Serialize", "Deserialize", "TS", "Samples"])
+        it.serde = not self.p.ts_only
+        return it
 
     def gen_params(self):
         if not self.p.generics or self.r.random() > 0.18:
             return []
         return self.r.choice([["T"], ["T"], ["T", "U"]])
+
+    def add_param_defaults(self, it: Item):
+        """`struct G<T, U = Foo>`: defaults are dependencies of the declaration (graph corpora only)."""
+        if not (self.p.placements and it.params and self.r.random() < 0.4):
+            return
+        last = it.params[-1]
+        cands = [i for i in self.items if not i.params]
+        if cands and self.r.random() < 0.6:
+            d = Ty("user", item=self.r.choice(cands))
+        else:
+            d = self.r.choice([prim("String"), Ty("vec", args=[prim("u8")]), Ty("opt", args=[prim("i32")])])
+        it.param_defaults[last] = d.rs()
+        it.param_default_tys = {last: d}
 
     def struct(self):
         kind = self.r.choices(["unit", "newtype", "tuple", "named"], [1, 3, 3, 12])[0]
@@ -684,6 +717,7 @@ class Gen:
                             f.extra_attrs.append('#[serde(skip_serializing_if = "Option::is_none")]')
         if self.r.random() < self.p.p_attr * 0.3:
             it.rename = f"Ren{self.prefix}{self.n()}"
+        self.add_param_defaults(it)
         self.finish(it)
         return it
 
@@ -775,10 +809,50 @@ class Gen:
                                                    untagged=unt))
         if it.kind in ("newtype", "tuple"):
             it.kind = "newtype" if len(it.fields) == 1 else "tuple"
-        it.recursive = any(f.ty.has("self") for f in it.all_fields()) or any(d.recursive for d in it.deps())
+        it.recursive = it.recursive or any(f.ty.has("self") for f in it.all_fields()) or any(d.recursive for d in it.deps())
+        if self.p.placements:
+            self.place(it)
         self.items.append(it)
 
+    SHARED = ["shared/one.ts", "shared/two.ts", "deep/er/three.ts", "../up/four.ts"]
+
+    def place(self, it: Item):
+        r = self.r.random()
+        px = self.prefix.lower()
+        if r < 0.35:
+            return
+        if r < 0.50:
+            it.export_to = self.r.choice([f"{px}dir/", f"{px}a/b/", "common/", f"../{px}esc/", f"{px}x/../{px}y/"])
+        elif r < 0.62:
+            it.export_to = self.r.choice([f"{px}files/{it.name}_f.ts", f"{px}{it.name}.custom.ts", f"n1/n2/{px}{it.name}.ts",
+                                          f"../{px}out/{it.name}.ts", f"{px}q/{it.name}.d.ts"])
+        else:
+            # files shared by several types (same stem in different directories too)
+            it.export_to = self.r.choice([f"{px}{s}" if not s.startswith("../") else f"../{px}{s[3:]}" for s in self.SHARED]
+                                         + [f"{px}s1/same.ts", f"{px}s2/same.ts"])
+
+    def cycle_pair(self):
+        """Two named structs referring to each other (through Option<Box<_>> / Vec<_>)."""
+        a = self.new_item("named")
+        b = self.new_item("named")
+        a.recursive = b.recursive = True
+        d = max(1, self.p.max_depth - 1)
+        a.fields = [self.named_field([], d, allow_self=False) for _ in range(self.r.choice([0, 1, 2]))]
+        a.fields.append(Field(self.field_name(), Ty("opt", args=[Ty("box", args=[Ty("user", item=b)])])))
+        b.fields = [self.named_field([], d, allow_self=False) for _ in range(self.r.choice([0, 1, 2]))]
+        b.fields.append(Field(self.field_name(), self.r.choice([Ty("vec", args=[Ty("user", item=a)]),
+                                                                  Ty("map", "BTreeMap", args=[prim("String"), Ty("user", item=a)])])))
+        for it in (a, b):
+            for f in it.fields:
+                f.flatten = f.flatten and False
+            if self.p.placements:
+                self.place(it)
+            self.items.append(it)
+        return a
+
     def item(self):
+        if self.p.placements and self.r.random() < 0.06:
+            return self.cycle_pair()
         if self.p.enums and self.r.random() < 0.45:
             return self.enum()
         return self.struct()
